@@ -13,7 +13,8 @@ import time
 import vlib
 from vlib import Broken, Model
 
-LIB = ["varintTagged.c", "varintExternal.c", "varintDict.c", "varintElias.c", "varintBitmap.c", "varintRLE.c"]
+LIB = ["varintTagged.c", "varintExternal.c", "varintDict.c", "varintElias.c", "varintBitmap.c", "varintRLE.c",
+       "varintBP128.c"]
 BUILD = dict(extra_flags=["-std=gnu11"] + vlib.SHIM_LD, extra_src=["allocshim.c"])
 HOST = re.compile(r'<<\s*"HOST",\s*"(\w+)",\s*(-?\d+),\s*(-?\d+),\s*"([^"]*)",\s*<<([\d,\s]*)>>\s*>>', re.S)
 
@@ -74,6 +75,9 @@ def run(pid, tier):
                     mapped = max(min(n, 9), 0)
                     bs = [b0] + [pay] * 8
                     lines.append("TaggedGet %d 0 exhaustive %d %s" % (n, mapped, " ".join(map(str, bs[:mapped]))))
+                    if n >= 0:
+                        # the 128-block header reader is told its input size as well
+                        lines.append("BP128GetCount %d 0 exhaustive %d %s" % (mapped, mapped, " ".join(map(str, bs[:mapped]))))
         rng = random.Random(vlib.SEED)
         nrand = 20000 if tier == "quick" else 1000000
         lines += rand_inputs(rng, nrand)
@@ -97,7 +101,16 @@ def run(pid, tier):
             ev = dict(ev)
             ev["ret"] = ev["ret"] - 1
             return ev
-        neg = vlib.negative_control(traces[0], "HostileTrace.tla", "HostileTrace.cfg", mut)
+        neg = None
+        for t_ in traces:
+            try:
+                neg = vlib.negative_control(t_, "HostileTrace.tla", "HostileTrace.cfg", mut)
+                break
+            except Broken as ex:
+                if "no suitable event" not in str(ex):
+                    raise
+        if neg is None:
+            raise Broken("negative control: no suitable event in any trace")
         classes, samples = vlib.classes_of(traces, key)
         rule = ("inputs: %d mutations of documented wire layouts built by TLC (HostileGen.tla: every truncation point, "
                 "header fields forced to 0 / 2^20 / 2^20+1 / 2^32 / 2^61 / 2^63 / 2^64-1, counts beyond the payload, "
